@@ -175,7 +175,7 @@ func lzN(x *smt.Term, w int) *smt.Term {
 
 // pureExternal: stdlib functions modelled as side-effect free with an unconstrained result.
 func pureExternal(name string) bool {
-	for _, p := range []string{"strings.", "strconv.", "fmt.Sprint", "fmt.Sprintf", "unicode/utf8.", "unicode.", "path.", "path/filepath.Clean",
+	for _, p := range []string{"strings.", "strconv.", "fmt.Sprint", "fmt.Sprintf", "unicode/utf8.", "unicode.", "path.", "path/filepath.",
 		"errors.Is", "errors.As", "errors.Unwrap", "(*strings.Builder)", "bytes.Equal", "bytes.Compare", "bytes.IndexByte", "bytes.HasPrefix",
 		"context.Background", "context.TODO", "context.WithValue", "(context.", "(*context.", "time.Duration", "(time.Duration)", "(time.Time)", "time.Unix", "io/fs.FileMode", "(io/fs.FileMode)", "math.", "sort.Search",
 		"(reflect.Type)", "reflect.TypeOf", "math/rand.", "(*math/rand.", "hash/crc32.", "crypto/sha256.Sum256", "encoding/hex.", "os.IsNotExist", "(*errors.", "(*fmt.wrapError)",
